@@ -96,6 +96,8 @@ class Effects:
         if isinstance(expr, ast.Attribute):
             return self._reach(self.classify(fi, expr.value, at, depth + 1, seen))
         if isinstance(expr, ast.Subscript):
+            if isinstance(expr.slice, ast.Slice):
+                return {"fresh"}    # x[a:b] builds a new list (its elements alias the old ones)
             return self._reach(self.classify(fi, expr.value, at, depth + 1, seen))
         if isinstance(expr, ast.Starred):
             return self.classify(fi, expr.value, at, depth + 1, seen)
